@@ -7,6 +7,7 @@ CONSTANTS
   Srcs <- MCOneSrc
   Reqs <- MCReqs
   Segs <- MCSegs
+  EnvClasses <- MCRewrites
   MaxEnv = 3
   MaxVer = 3
   Stamped = FALSE
